@@ -121,6 +121,18 @@ def results(pbc, rng_seed, explicit):
     ammo = pbc.Ammo(dm, U.MPS(790), U.Celsius(15), 0.01, True)
     ammo.calc_powder_sens(U.MPS(770), U.Celsius(-5))
     out.append(ammo.get_velocity_for_temp(U.Celsius(30)).raw_value)
+    # every OPTIONAL argument left out: what the library supplies itself must not depend on the settings either
+    ammo_d = pbc.Ammo(dm, U.MPS(790), temp_modifier=0.015, use_powder_sensitivity=True)
+    out += [ammo_d.powder_temp.raw_value, ammo_d.get_velocity_for_temp(U.Celsius(30)).raw_value]
+    atmo_d, weapon_d, wind_d = pbc.Atmo(), pbc.Weapon(), pbc.Wind()
+    out += [atmo_d.altitude.raw_value, atmo_d.pressure.raw_value, atmo_d.temperature.raw_value, atmo_d.powder_temp.raw_value, atmo_d.density_ratio, atmo_d._mach,
+            weapon_d.sight_height.raw_value, weapon_d.twist.raw_value, weapon_d.zero_elevation.raw_value,
+            wind_d.velocity.raw_value, wind_d.direction_from.raw_value, wind_d.until_distance.raw_value]
+    shot_d = pbc.Shot(weapon_d, ammo_d)
+    out += [shot_d.look_angle.raw_value, shot_d.relative_angle.raw_value, shot_d.cant_angle.raw_value, shot_d.atmo.temperature.raw_value]
+    out += [float(v) if not hasattr(v, 'raw_value') else v.raw_value for r in calc.fire(shot_d, U.Meter(300), U.Meter(100)).trajectory for v in r]
+    dm_d = pbc.DragModel(0.3, pbc.TableG1)
+    out += [dm_d.weight.raw_value, dm_d.diameter.raw_value, dm_d.length.raw_value]
     sight = pbc.Sight('SFP', U.Meter(100), U.Mil(0.1), U.MOA(0.25))
     weapon = pbc.Weapon(U.Centimeter(5), U.Inch(11), U.Mil(0.5), sight)
     shot = pbc.Shot(weapon, ammo, U.Degree(3), U.Mil(0.2), U.Degree(2), atmo, [pbc.Wind(U.MPS(4), U.Degree(70), U.Meter(200)), pbc.Wind(U.KMH(9), U.Degree(250), U.Meter(900))])
